@@ -18,6 +18,7 @@ import EaselModel.Alphabet.Iupac
 import EaselModel.Gencode.WholeLemmas
 import EaselModel.Gencode.SixFrames
 import EaselModel.Gencode.Numbering
+import EaselModel.Gencode.HistoryLemmas
 import EaselModel.Gencode.Total
 import EaselModel.Gencode.Dump
 /-! # C17 — property theorems (statements + glue only; lemmas live in Gencode/*.lean)
@@ -554,6 +555,72 @@ example : (T.tables.head?.map fun t =>
 example : topSlices A.dna [2,2,0,3,2,0,0,0,3,0,0,1] 0 [5, 4, 3] =
     [[2,3,3,0,3], [0,3,3,3,1,0], [1,0,3,1,1]] ∧
     windows [] (revcomp A.dna [2,2,0,3,2,0,0,0,3,0,0,1]) [5, 4, 3] = [[2,3,3,0,3], [0,3,3,3,1,0], [1,0,3,1,1]] := by decide +kernel
+
+/-! ## histories of calls on ONE `ESL_GENCODE` object -/
+
+/-- AFTER ANY HISTORY, `esl_gencode_Set(id)` LEAVES EXACTLY TABLE `id`. `Set` is modelled as the code does it — on the existing
+    object, field by field, the two arrays by the loop `for (c = 0; c < 64; c++)` — and a history is any list of `Set(id)` (known
+    or unknown ids), `SetInitiatorAny`, `SetInitiatorOnlyAUG` and `Read` of arbitrary bytes (the new object replaces the old one
+    when Read succeeds). For ANY table array with 64-entry rows, any alphabets, any well-formed start object and ANY history:
+    a final `Set(id)` with a known id gives the object `setTable` gives on fresh memory (nothing of an earlier table, policy
+    setter or file survives: id, description, 64 translations, 64 initiator flags), with an unknown id it leaves the object
+    as the history left it (`eslENOTFOUND`). -/
+theorem set_after_any_history (nt aa : Alphabet) (tabs : List RawTable)
+    (htabs : ∀ t ∈ tabs, t.basic.length = 64 ∧ t.init.length = 64)
+    (hatg : 16 * nt.inmapAt 65 + 4 * nt.inmapAt 84 + nt.inmapAt 71 < 64) (ops : List HOp) (g0 : Gencode) (hg : CodeOK g0) (id : Int) :
+    (hrun nt aa tabs g0 (ops ++ [.set id])).1 =
+      match setTable tabs id with
+      | some g' => g'
+      | none => (hrun nt aa tabs g0 ops).1 :=
+  set_after_history nt aa tabs htabs hatg ops g0 hg id
+
+/-- … for the tables of the tree, over DNA and RNA: after any history, `Set(t)` leaves `codeOf t` — re-selecting the SAME table
+    after a policy setter restores its own initiator flags — and a policy setter after that gives the corresponding one of the
+    three `settings` of the table (to which `no_initiator_stop`, `builtin_tables_ok`, `read_write_roundtrip` apply); every
+    object a history can produce is well formed -/
+theorem set_resets_builtin (ops : List HOp) (g0 : Gencode) (hg : CodeOK g0) :
+    ∀ nt ∈ [A.dna, A.rna], ∀ t ∈ T.tables,
+      (hrun nt A.amino T.tables g0 (ops ++ [.set t.id])).1 = codeOf t ∧
+      (hrun nt A.amino T.tables g0 (ops ++ [.set t.id, .any])).1 = setInitiatorAny A.amino (codeOf t) ∧
+      (hrun nt A.amino T.tables g0 (ops ++ [.set t.id, .aug])).1 = setInitiatorOnlyAUG A.dna (codeOf t) ∧
+      (hrun nt A.amino T.tables g0 (ops ++ [.set t.id, .aug, .set t.id])).1 = codeOf t ∧
+      CodeOK (hrun nt A.amino T.tables g0 ops).1 := by
+  intro nt hnt t ht
+  have htabs : ∀ t ∈ T.tables, t.basic.length = 64 ∧ t.init.length = 64 := read_never_faults_hyps.2.2.2.2.2
+  have hatg : 16 * nt.inmapAt 65 + 4 * nt.inmapAt 84 + nt.inmapAt 71 < 64 := by
+    have : ∀ nt ∈ [A.dna, A.rna], 16 * nt.inmapAt 65 + 4 * nt.inmapAt 84 + nt.inmapAt 71 < 64 := by decide +kernel
+    exact this nt hnt
+  have hset := Facts.table_ids.2.2.2.2.1 t ht
+  have key : ∀ ops', (hrun nt A.amino T.tables g0 (ops' ++ [.set t.id])).1 = codeOf t := fun ops' => by
+    rw [set_after_history nt A.amino T.tables htabs hatg ops' g0 hg t.id, hset]
+  have haug : setInitiatorOnlyAUG nt (codeOf t) = setInitiatorOnlyAUG A.dna (codeOf t) := by
+    have := Facts.rna_objects_ok.2.2.2.1 (codeOf t)
+    simp only [List.mem_cons, List.not_mem_nil, or_false] at hnt
+    rcases hnt with rfl | rfl
+    · rfl
+    · simp only [setInitiatorOnlyAUG] at this ⊢; rw [this]
+  refine ⟨key ops, ?_, ?_, ?_, hrun_codeOK nt A.amino T.tables htabs hatg ops g0 hg⟩
+  · have e : ops ++ [HOp.set t.id, HOp.any] = (ops ++ [HOp.set t.id]) ++ [HOp.any] := by simp
+    rw [e, hrun_append, key ops]; rfl
+  · have e : ops ++ [HOp.set t.id, HOp.aug] = (ops ++ [HOp.set t.id]) ++ [HOp.aug] := by simp
+    rw [e, hrun_append, key ops]; exact haug
+  · have e : ops ++ [HOp.set t.id, HOp.aug, HOp.set t.id] = (ops ++ [HOp.set t.id, HOp.aug]) ++ [HOp.set t.id] := by simp
+    rw [e]; exact key _
+
+/-- the policy setters overwrite ALL 64 flags from the translations alone: their result does not depend on the flags the object
+    had (so the order and repetition of policy setters does not matter, only the last one counts) -/
+theorem policy_setters_overwrite (nt aa : Alphabet) (g : Gencode) (flags : List Nat) :
+    setInitiatorAny aa { g with isInit := flags } = setInitiatorAny aa g ∧
+    setInitiatorOnlyAUG nt { g with isInit := flags } = setInitiatorOnlyAUG nt g ∧
+    setInitiatorAny aa (setInitiatorOnlyAUG nt g) = setInitiatorAny aa g ∧
+    setInitiatorOnlyAUG nt (setInitiatorAny aa g) = setInitiatorOnlyAUG nt g := ⟨rfl, rfl, rfl, rfl⟩
+
+-- non-vacuity: table 1, any, Set(4), only-AUG, Set(7) (unknown: untouched), Set(4) again: the object is table 4 with its own 8 initiators
+example : (T.tables.find? (fun t => t.id = 4)).map (fun t4 =>
+    ((setTable T.tables 1).map fun g1 =>
+      let r := hrun A.dna A.amino T.tables g1 [.any, .set 4, .aug, .set 7, .set 4]
+      (decide (r.1 = codeOf t4), r.2.map (·.2), r.2.map fun x => (x.1.translTable, (x.1.isInit.filter (· ≠ 0)).length)))) =
+    some (some (true, [true, true, true, false, true], [(1, 61), (4, 8), (4, 1), (4, 1), (4, 8)])) := by decide +kernel
 
 /-! ## non-vacuity -/
 -- ATGAAATAAATGCCCTAGG in the standard code, any-initiator, minlen 0, top strand, windows 4+5+10:
